@@ -457,14 +457,14 @@ def Size5 (n : Nat) : Prop :=
 /-- The interesting MBC5 fact: the code keeps the bank register REDUCED modulo the bank count, so a
     later write of the low byte combines with the high byte of the reduced value.  For a power-of-two
     bank count up to 512 this is the documented `(hi<<8 | lo) mod n`. -/
-theorem mbc5_lo {n hi lo v : Nat} (hn : Size5 n) (hhi : hi < 2) (hlo : lo < 256) (hv : v < 256) :
+theorem mbc5_lo {n hi lo v : Nat} (hn : Size5 n) (_hhi : hi < 2) (hlo : lo < 256) (hv : v < 256) :
     ((((hi * 256 + lo) % n) &&& 0xff00) + v) % 65536 % (n % 65536) = (hi * 256 + v % 256) % n := by
   have hlt : (hi * 256 + lo) % n < 512 := by
     rcases hn with h|h|h|h|h|h|h|h|h <;> subst h <;> omega
   rw [and_ff00_lt512 _ hlt]
   rcases hn with h|h|h|h|h|h|h|h|h <;> subst h <;> simp only [Nat.reduceMod] <;> omega
 
-theorem mbc5_hi {n hi lo v : Nat} (hn : Size5 n) (hhi : hi < 2) (hlo : lo < 256) (hv : v < 256) :
+theorem mbc5_hi {n hi lo v : Nat} (hn : Size5 n) (_hhi : hi < 2) (hlo : lo < 256) (_hv : v < 256) :
     (((v <<< 8) % 65536) + (((hi * 256 + lo) % n) &&& 0x00ff)) % 65536 % (n % 65536) = (v % 2 * 256 + lo) % n := by
   rw [shl8, and_ff]
   rcases hn with h|h|h|h|h|h|h|h|h <;> subst h <;> simp only [Nat.reduceMod] <;> omega
